@@ -954,9 +954,77 @@ func finite(t *Term) bool {
 	return false
 }
 
+// intOfFP returns a 64-bit integer term x with float64(x) == t exactly (up to the sign of zero),
+// when t is structurally an integer-valued float of magnitude <= 2^53.
+func (c *Ctx) intOfFP(t *Term) (*Term, bool) {
+	const lim = int64(1) << 53
+	switch t.Op {
+	case OConst:
+		f := math.Float64frombits(t.Val)
+		if f == math.Trunc(f) && f >= -float64(lim) && f <= float64(lim) {
+			return c.BV(64, uint64(int64(f))), true
+		}
+	case OFFromSBV:
+		x := t.Args[0]
+		if x.W == 64 && x.SOk && x.SLo >= -lim && x.SHi <= lim {
+			return x, true
+		}
+	case OFNeg:
+		if y, ok := c.intOfFP(t.Args[0]); ok {
+			return c.Neg(y), true
+		}
+	}
+	return nil, false
+}
+
 func (c *Ctx) fcmp(op Op, a, b *Term) *Term {
 	if a == b && noNaN(a) {
 		return c.Bool(op != OFLt)
+	}
+	// push comparisons with a constant through ite so that integer-valued leaves become integer comparisons
+	if a.Op == OIte && b.IsConst() {
+		return c.Ite(a.Args[0], c.fcmp(op, a.Args[1], b), c.fcmp(op, a.Args[2], b))
+	}
+	if b.Op == OIte && a.IsConst() {
+		return c.Ite(b.Args[0], c.fcmp(op, a, b.Args[1]), c.fcmp(op, a, b.Args[2]))
+	}
+	if !(a.IsConst() && b.IsConst()) {
+		if x, ok := c.intOfFP(a); ok {
+			if y, ok := c.intOfFP(b); ok {
+				switch op {
+				case OFLt:
+					return c.Slt(x, y)
+				case OFLe:
+					return c.Sle(x, y)
+				case OFEq:
+					return c.Eq(x, y)
+				}
+			}
+			// integer-valued a against a non-integral / huge constant
+			if b.IsConst() {
+				f := math.Float64frombits(b.Val)
+				if !math.IsNaN(f) {
+					if f > 9.1e15 {
+						return c.Bool(op != OFEq)
+					}
+					if f < -9.1e15 {
+						return c.False
+					}
+				}
+			}
+		} else if a.IsConst() {
+			if _, ok := c.intOfFP(b); ok {
+				f := math.Float64frombits(a.Val)
+				if !math.IsNaN(f) {
+					if f > 9.1e15 {
+						return c.False
+					}
+					if f < -9.1e15 {
+						return c.Bool(op != OFEq)
+					}
+				}
+			}
+		}
 	}
 	if a.IsConst() && b.IsConst() {
 		x, y := math.Float64frombits(a.Val), math.Float64frombits(b.Val)
@@ -1010,6 +1078,17 @@ func (c *Ctx) FIsNaN(a *Term) *Term {
 	return c.mk(&Term{Op: OFIsNaN, Sort: SBool, Args: []*Term{a}})
 }
 func (c *Ctx) FToSBV(a *Term, w int) *Term {
+	if a.Op == OIte {
+		return c.Ite(a.Args[0], c.FToSBV(a.Args[1], w), c.FToSBV(a.Args[2], w))
+	}
+	if !a.IsConst() {
+		if x, ok := c.intOfFP(a); ok {
+			if w < 64 {
+				return c.Extract(x, w-1, 0)
+			}
+			return x
+		}
+	}
 	if a.IsConst() {
 		f := math.Float64frombits(a.Val)
 		if !math.IsNaN(f) && f > -9.3e18 && f < 9.2e18 {
